@@ -1,6 +1,7 @@
 import Driver.Util
 import Driver.Locals
 import Driver.Iter
+import Driver.Custom
 open Driver
 
 def step (line : String) : List String :=
@@ -8,6 +9,7 @@ def step (line : String) : List String :=
   | "locals" :: rest => [runLocals rest]
   | "iter" :: rest => runIter rest
   | "compiter" :: rest => runCompIter rest
+  | "custom" :: rest => runCustom rest
   | [] => []
   | f :: _ => [s!"{f} ? unknown-family"]
 
